@@ -469,17 +469,19 @@ func (p *Parser) parseAccountDirective(startPos Position) ast.Directive {
 
 	accountName := p.current.Value
 	accountPos := p.current.Pos
+	accountEnd := p.current.End
 	p.advance()
 
 	if p.current.Type == TokenText {
 		accountName += " " + p.current.Value
+		accountEnd = p.current.End
 		p.advance()
 	}
 
 	dir := ast.AccountDirective{
 		Account: ast.Account{
 			Name:  accountName,
-			Range: ast.Range{Start: toASTPosition(accountPos)},
+			Range: ast.Range{Start: toASTPosition(accountPos), End: toASTPosition(accountEnd)},
 		},
 		Range: ast.Range{Start: toASTPosition(startPos)},
 	}
@@ -511,7 +513,7 @@ func (p *Parser) parseCommodityDirective(startPos Position) ast.Directive {
 		symbol := p.current.Value
 		dir.Commodity = ast.Commodity{
 			Symbol: symbol,
-			Range:  ast.Range{Start: toASTPosition(p.current.Pos)},
+			Range:  ast.Range{Start: toASTPosition(p.current.Pos), End: toASTPosition(p.current.End)},
 		}
 		p.advance()
 
@@ -528,7 +530,7 @@ func (p *Parser) parseCommodityDirective(startPos Position) ast.Directive {
 		if p.current.Type == TokenCommodity || p.current.Type == TokenText {
 			dir.Commodity = ast.Commodity{
 				Symbol: p.current.Value,
-				Range:  ast.Range{Start: toASTPosition(p.current.Pos)},
+				Range:  ast.Range{Start: toASTPosition(p.current.Pos), End: toASTPosition(p.current.End)},
 			}
 			dir.Format = number + " " + p.current.Value
 			p.advance()
@@ -536,7 +538,7 @@ func (p *Parser) parseCommodityDirective(startPos Position) ast.Directive {
 	case TokenText:
 		dir.Commodity = ast.Commodity{
 			Symbol: p.current.Value,
-			Range:  ast.Range{Start: toASTPosition(p.current.Pos)},
+			Range:  ast.Range{Start: toASTPosition(p.current.Pos), End: toASTPosition(p.current.End)},
 		}
 		p.advance()
 	}
@@ -600,7 +602,7 @@ func (p *Parser) parsePriceDirective(startPos Position) ast.Directive {
 	if p.current.Type == TokenCommodity || p.current.Type == TokenText {
 		dir.Commodity = ast.Commodity{
 			Symbol: p.current.Value,
-			Range:  ast.Range{Start: toASTPosition(p.current.Pos)},
+			Range:  ast.Range{Start: toASTPosition(p.current.Pos), End: toASTPosition(p.current.End)},
 		}
 		p.advance()
 	} else {
@@ -741,7 +743,7 @@ func (p *Parser) parseYearDirective(startPos Position) ast.Directive {
 func (p *Parser) parseComment() ast.Comment {
 	comment := ast.Comment{
 		Text:  p.current.Value,
-		Range: ast.Range{Start: toASTPosition(p.current.Pos)},
+		Range: ast.Range{Start: toASTPosition(p.current.Pos), End: toASTPosition(p.current.End)},
 		Tags:  parseTags(p.current.Value, p.current.Pos),
 	}
 	p.advance()
